@@ -366,7 +366,8 @@ impl WorldA {
         c.tainted = false;
         c.ever_disconnected = false;
         // a local client is built from the server's channel lists in both roles (send = server channels)
-        let base = tele_mid;
+        // (a local client's counters are not teleported — see below — so its message ids start at zero)
+        let base = if local { 0 } else { tele_mid };
         c.st = [
             self.cch.iter().map(|x| Chan::new(x.clone(), base)).collect(),
             self.sch.iter().map(|x| Chan::new(x.clone(), base)).collect(),
